@@ -37,7 +37,7 @@ OBLIGATIONS = {"size-edge": 20, "order:obs-sorted": 10, "order:opposite": 10, "o
                "bias:standard": 50, "bias:normalised": 50, "bias:log": 50,
                "nse": 50, "kge": 50, "corr:Pearson:mean": 30,
                "corr:Pearson:median": 30, "corr:Spearman:mean": 30,
-               "corr:Spearman:median": 30, "excludenull:nan": 30,
+               "corr:Spearman:median": 30, "excludenull:nan": 30, "excludenull:huge-complete-pair": 30,
                "excludenull:inf": 30, "excludenull:transform-nan": 20, "excludenull:corr": 10,
                "trans:Log": 20, "trans:BoxCox2": 20, "trans:Reciprocal": 20,
                "trans:Sinh": 20, "perfect": 30, "meansim": 20,
@@ -763,6 +763,44 @@ def run(ctx):
             run_scores_case(ctx, {"kind": "scores", "obs": o3, "sim": s3,
                                   "trans": [tnm, tkw], "excludenull": False,
                                   "nullclass": "nan-one-series"})
+            # "the score of the series with incomplete pairs removed", literally: the
+            # same call on the complete pairs only gives the same answer - also when a
+            # complete pair holds values near the top of the double range (one record
+            # in tiny units), whose sum or product is not a double
+            o4, s4 = o2.copy(), s2.copy()
+            full = np.where(np.isfinite(o4) & np.isfinite(s4))[0]
+            if cls != "transform-nan" and len(full) >= 3:
+                jb = int(full[it % len(full)])
+                sg = [1.0, -1.0][(it // 3) % 2] if not positive else 1.0
+                o4[jb], s4[jb] = sg * [1.2e308, 0.95e308, 8e307][it % 3], \
+                    sg * [0.9e308, 1.1e308, 1.7e308][it % 3]
+                okp = np.isfinite(o4) & np.isfinite(s4)
+                ctx.tag("excludenull:huge-complete-pair")
+                m_ = M()
+                idt = make_trans("Identity", {})
+                pairs = []
+                for typ in ("standard", "normalised", "log"):
+                    pairs.append(("bias-" + typ,
+                                  call(m_.bias, o4, s4, idt, True, typ),
+                                  call(m_.bias, o4[okp], s4[okp], idt, False, typ)))
+                pairs.append(("nse", call(m_.nse, o4, s4, idt, True),
+                              call(m_.nse, o4[okp], s4[okp], idt, False)))
+                pairs.append(("kge", call(m_.kge, o4, s4, idt, True),
+                              call(m_.kge, o4[okp], s4[okp], idt, False)))
+                pairs.append(("corr-Spearman", call(m_.corr, o4, s4[:, None], idt, True,
+                                                    "mean", "Spearman"),
+                              call(m_.corr, o4[okp], s4[okp][:, None], idt, False, "mean",
+                                   "Spearman")))
+                ctx.api("scores", 6)
+                from hyverif.core import same_result as _same
+                badp = {k: [repr(a), repr(b)] for k, a, b in pairs
+                        if isinstance(a, Exception) or isinstance(b, Exception) or
+                        not _same(a, b, 1e-12, 0.0)}
+                ctx.check("scores.excludenull-equals-pairs-removed", not badp,
+                          "scores|excludenull-differs-from-the-series-with-incomplete-pairs-removed",
+                          {"kind": "scores", "obs": o4, "sim": s4, "trans": ["Identity", {}],
+                           "excludenull": True, "nullclass": "huge-complete-pair"},
+                          lambda: {"score: [with excludenull, on complete pairs]": badp})
         # clean data: excludenull must not change anything
         case3 = dict(case, excludenull=True)
         run_scores_case(ctx, case3)
